@@ -337,6 +337,21 @@ def _add(module: Module, val: ModuleAttr) -> ModuleAttr:
         # Nonetheless gotta raise an error if we get here, somehow.
         _attr_type_error(val)
 
+    # Re-using a name replaces its prior attribute. Remove that from its own type-specific container too,
+    # which may be a different one, e.g. when an Instance takes over the name of a Signal.
+    prior = module.namespace.get(val.name, None)
+    if prior is not None:
+        for ctr in (
+            module.ports,
+            module.signals,
+            module.instances,
+            module.instarrays,
+            module.instbundles,
+            module.bundles,
+        ):
+            if ctr.get(val.name, None) is prior:
+                ctr.pop(val.name)
+
     # Add it to the module namespace, and the type-specific container
     type_ctr[val.name] = val
     module.namespace[val.name] = val
